@@ -1,4 +1,128 @@
-/- Driver for C20 (stub: not built yet). -/
+import SkVerif.Model.Validate
+import SkVerif.Drv.Parse
 namespace SkVerif.Drv.C20
-def handle (_toks : List String) : String := "bad-op"
+open SkVerif SkVerif.Val SkVerif.Drv
+
+abbrev KV := List (String × String)
+
+def parseKV (toks : List String) : KV :=
+  toks.filterMap (fun t => match t.splitOn "=" with
+    | [k, v] => some (k, v)
+    | _ => none)
+
+def get (kv : KV) (k : String) : Option String := (kv.find? (·.1 == k)).map (·.2)
+
+def parseY? (s : String) : Option YDesc :=
+  let (k, n) := match s.splitOn ":" with
+    | [k, n] => (k, n.toNat?)
+    | [k] => (k, some 0)
+    | _ => ("", none)
+  let kind : Option YKind := match k with
+    | "ok" => some .ok | "dupidx" => some .dupidx | "unsorted" => some .unsorted | "empty" => some .empty
+    | "frame1" => some .frame1 | "frame2" => some .frame2 | "array" => some .array | "array2d" => some .array2d
+    | "list" => some .list | "none" => some .none | "floatidx" => some .floatidx | _ => none
+  match kind, n with
+  | some kd, some n => some ⟨kd, n⟩
+  | _, _ => none
+
+def parseX? : String → Option XKind
+  | "none" => some .none | "ok" => some .ok | "shifted" => some .shifted | "shorter" => some .shorter
+  | "unsorted" => some .unsorted | "array" => some .array | _ => none
+
+def parseIntLike? (s : String) : Option IntLike :=
+  if s == "none" then some .none
+  else if s == "s" then some .str
+  else if s == "b" then some .bool
+  else match s.splitOn ":" with
+    | ["i", v] => (parseInt? v).map IntLike.int
+    | ["f", _] => some .float
+    | _ => none
+
+def parseFh? (s : String) : Option FhTok :=
+  match s with
+  | "none" => some .none | "dup" => some .dup | "empty" => some .empty | "frac" => some .frac
+  | "str" => some .str | "float" => some .float
+  | _ => match s.splitOn ":" with
+    | ["r", vs] => (parseIntList? vs).map FhTok.rel
+    | ["a", vs] => (parseIntList? vs).map FhTok.abs
+    | _ => none
+
+def showOutcome (o : Outcome) : String :=
+  (if o.ok then "ok" else "rej") ++ ":" ++
+    (match o.fitted with | some true => "T" | some false => "F" | none => "-")
+
+def handle (toks : List String) : String :=
+  match toks with
+  | ep :: rest =>
+    let kv := parseKV rest
+    let r : Option Outcome :=
+      match ep with
+      | "naive_fit" => do
+          let st : Strategy := match (← get kv "strategy") with
+            | "last" => .last | "mean" => .mean | "drift" => .drift | _ => .unknown
+          pure (naiveFit (← parseY? (← get kv "y")) (← parseX? (← get kv "X")) (← parseFh? (← get kv "fh")) st
+            (← parseIntLike? (← get kv "sp")) (← parseIntLike? (← get kv "wl")))
+      | "naive_predict" => do pure (naivePredict (← parseFh? (← get kv "fitfh")) (← parseFh? (← get kv "fh")))
+      | "naive_update" => do pure (naiveUpdate (← parseY? (← get kv "y")).kind (← parseX? (← get kv "X")))
+      | "required" => do
+          if (← get kv "phase") == "fit" then pure (requiredFit (← parseFh? (← get kv "fh")))
+          else pure (requiredPredict (← parseFh? (← get kv "fitfh")) (← parseFh? (← get kv "fh")))
+      | "split" => do
+          let k : SplitKind ← match (← get kv "kind") with
+            | "sliding" => some .sliding | "expanding" => some .expanding | "single" => some .single
+            | "cutoff" => some .cutoff | _ => none
+          let cut : CutTok ← match (← get kv "cutoffs") with
+            | "ok" => some .ok | "empty" => some .empty | "list" => some .list | "beyond" => some .beyond | _ => none
+          pure (splitEntry k (← parseY? (← get kv "y")) (← parseFh? (← get kv "fh")) (← parseIntLike? (← get kv "wl"))
+            (← parseIntLike? (← get kv "step")) (← parseIntLike? (← get kv "iw")) (← parseBool? (← get kv "sww")) cut)
+      | "tts" => do
+          pure (ttsEntry (← parseY? (← get kv "y")) (← parseX? (← get kv "X")) (← parseFh? (← get kv "fh"))
+            (← parseIntLike? (← get kv "test")) (← parseIntLike? (← get kv "train")))
+      | "evaluate" => do
+          let cv : CvTok ← match (← get kv "cv") with
+            | "ok" => some .ok | "nosww" => some .nosww | "notcv" => some .notcv | "none" => some .none | _ => none
+          let sc : ScoreTok ← match (← get kv "scoring") with
+            | "none" => some .none | "ok" => some .ok | "notcallable" => some .notcallable | _ => none
+          let stOk := (← get kv "strategy") == "refit" || (← get kv "strategy") == "update"
+          pure (evaluateEntry (← parseY? (← get kv "y")) (← parseX? (← get kv "X")) cv sc stOk)
+      | "gridsearch" => do
+          let cv : CvTok ← match (← get kv "cv") with
+            | "ok" => some .ok | "nosww" => some .nosww | "notcv" => some .notcv | "none" => some .none | _ => none
+          let sc : ScoreTok ← match (← get kv "scoring") with
+            | "none" => some .none | "ok" => some .ok | "notcallable" => some .notcallable | _ => none
+          let g : GridTok ← match (← get kv "grid") with
+            | "ok" => some .ok | "scalar" => some .scalar | "emptylist" => some .emptylist | "unknown" => some .unknown | _ => none
+          pure (gridSearchEntry (← parseY? (← get kv "y")) (← parseX? (← get kv "X")) cv sc g (← parseFh? (← get kv "fh")))
+      | "reduce" => do
+          let st : RedStrategy := match (← get kv "strategy") with
+            | "direct" => .direct | "recursive" => .recursive | "multioutput" => .multioutput | "dirrec" => .dirrec
+            | _ => .unknown
+          let sciOk := ["infer", "tabular-regressor", "time-series-regressor"].contains (← get kv "scitype")
+          pure (reduceEntry (← parseY? (← get kv "y")) (← parseX? (← get kv "X")) (← parseFh? (← get kv "fh")) st
+            (← parseIntLike? (← get kv "wl")) sciOk)
+      | "composite" => do
+          let k : CompKind ← match (← get kv "kind") with
+            | "ensemble" => some .ensemble | "pipeline" => some .pipeline | "multiplexer" => some .multiplexer
+            | "stacking" => some .stacking | _ => none
+          let sh : Shape ← match (← get kv "shape") with
+            | "ok" => some .ok | "dupnames" => some .dupnames | "dunder" => some .dunder | "clash" => some .clash
+            | "none" => some .none | "emptylist" => some .emptylist | "tuple" => some .tuple
+            | "notforecaster" => some .notforecaster | "alldropped" => some .alldropped
+            | "lastnotforecaster" => some .lastnotforecaster | "badtransformer" => some .badtransformer
+            | "forecasterinmiddle" => some .forecasterinmiddle | "unknownname" => some .unknownname
+            | "noneselected" => some .noneselected | _ => none
+          let aggOk := ["mean", "median", "min", "max"].contains (← get kv "aggfunc")
+          pure (compositeEntry k sh (← parseY? (← get kv "y")) (← parseFh? (← get kv "fh")) aggOk
+            (← parseBool? (← get kv "predict")))
+      | "fh" => do
+          let via := (← get kv "via") == "ctor"
+          let rel ← get kv "rel"
+          pure (fhEntry via (← parseFh? (← get kv "fh")) (rel == "T" || rel == "F") (rel == "T")
+            (← parseBool? (← get kv "enf")))
+      | _ => none
+    match r with
+    | some o => showOutcome o
+    | none => "bad-op"
+  | _ => "bad-op"
+
 end SkVerif.Drv.C20
